@@ -47,6 +47,13 @@ Theorem C03_ersatz_pread_all :
 Proof. exact C03_ersatz_pread_all_proof. Qed.
 Print Assumptions C03_ersatz_pread_all.
 
+(* ErsatzPWrite leaves the file with the data at [off, off+|data|) (holes zero filled), the rest untouched *)
+Theorem C03_ersatz_pwrite_all :
+  forall data off file script, no_err script = true -> data <> [] ->
+  exists o', ersatz_pwrite data off file (os_init [] script) = (Ok (overwrite file off data), o').
+Proof. exact C03_ersatz_pwrite_all_proof. Qed.
+Print Assumptions C03_ersatz_pwrite_all.
+
 (* FileStream = BufferedStream<FileWriter>: whatever the sizes of the writes and the outcomes of
    the write() calls, after the destructor's flush the descriptor has received the
    concatenation of the writes *)
